@@ -21,16 +21,22 @@ TRUSTED = [
 ASSUMPTIONS = [
     "context created with LY_CTX_NO_YANGLIBRARY | LY_CTX_DISABLE_SEARCHDIRS (+ LY_CTX_EXPLICIT_COMPILE), import callback set before "
     "the first module is loaded; no submodules, augments, deviations, cross-module leafref/when/must (no implicit implementing), "
-    "acyclic imports; every module has a data node (never a single-module dep set)",
+    "acyclic imports; every module has a data node (never a single-module dep set); LY_CTX_ALL_IMPLEMENTED is never set in "
+    "the scripts the model runs, and ENABLE_IMP_FEATURES / REF_IMPLEMENTED are stored bits there (the modelled modules have nothing "
+    "they act on; their effect on richer modules is checked by the oracle ctx-rich on the library only)",
 ]
 
 MANIFEST = {
     "text": "Coq (Properties_C09_ctx.v, model Context.v = lys_parse_in / lys_parse_load / _lys_set_implemented / lys_implement / "
-            "lys_unres_dep_sets_create / lys_compile_depset_all / lys_unres_glob_revert transcribed update by update, as of /repo "
-            "21681e3 and af27b8d): MAIN THEOREM C09_failed_op_restores - in every reachable quiescent state (executable: nothing "
-            "pending, implemented = compiled against the current features) a failing parse / load / implement / compile leaves obs "
-            "(modules, revisions, implemented, feature values, compiled schema, get_module_latest/implemented answers, hashed fields) "
-            "unchanged, for every failing stage and both compile modes; no other hypothesis (the latest-revision invariant is proved "
+            "lys_unres_dep_sets_create / lys_compile_depset_all / lys_unres_glob_revert / ly_ctx_set_options / ly_ctx_unset_options "
+            "transcribed update by update, as of /repo 21681e3, af27b8d, d89c6b6, c018937, d873110; the state carries the options "
+            "EXPLICIT_COMPILE, ENABLE_IMP_FEATURES, REF_IMPLEMENTED, SET_PRIV_PARSED): MAIN THEOREM C09_failed_op_restores - in "
+            "every reachable quiescent state (executable: nothing pending, implemented = compiled against the current features) a "
+            "failing parse / load / implement / compile / set_options / unset_options leaves obs "
+            "(modules, revisions, implemented, feature values, compiled schema, get_module_latest/implemented answers, hashed fields, "
+            "ly_ctx_get_options) unchanged (the option calls because they cannot fail there: C09_option_calls_quiescent_ok); in EVERY "
+            "state a failing ly_ctx_set_options leaves the options as they were (C09_set_options_failed_keeps_options; the variant "
+            "that ORs the flags in first is refuted by a witness, C09_set_options_or_first_refuted = seeded change C09-7), for every failing stage and both compile modes; no other hypothesis (the latest-revision invariant is proved "
             "for all reachable states, the feature bits are restored by the revert). The full statement over all reachable states "
             "is still REFUTED (C09_failed_op_restores_refuted / C09_quiescent_necessary: explicit compilation with pending changes); "
             "regression theorems for the three fixed defects (C09_latest_flag_given_back, C09_feature_bits_restored); "
